@@ -42,7 +42,7 @@ func (g *c11Gen) factArg() string {
 		// different ground terms that are written alike without quotes (witnesses must be compared as terms)
 		"'1'", "'2'", "'f(a)'", "'p-1'", "'[1,2]'", "'1'", "'g(_,_)'",
 		// integers that are more than 2^63 apart
-		"9223372036854775807", "-9223372036854775807", "-2", "f(9223372036854775807)", "f(-9223372036854775808)", "4611686018427387904", "-4611686018427387905")
+		"''", "''", "f('')", "''-1", "9223372036854775807", "-9223372036854775807", "-2", "f(9223372036854775807)", "f(-9223372036854775808)", "4611686018427387904", "-4611686018427387905")
 }
 
 func (g *c11Gen) facts() string {
